@@ -5,6 +5,9 @@ package main
 
 import (
 	"bytes"
+	"context"
+	"os"
+	"path/filepath"
 	"fmt"
 	"io"
 	"net"
@@ -13,6 +16,8 @@ import (
 	"time"
 
 	v1 "github.com/fatedier/frp/pkg/config/v1"
+	"github.com/fatedier/frp/client"
+	"github.com/fatedier/frp/pkg/config"
 	"github.com/fatedier/frp/pkg/msg"
 	"github.com/fatedier/frp/pkg/nathole"
 	"github.com/fatedier/frp/pkg/util/util"
@@ -685,8 +690,94 @@ func regNames(regs map[string]*sysReg) map[string]string {
 
 func boolsOf(i int) (bool, bool) { return i&2 != 0, i&1 != 0 }
 
-func realTransparency(g *gen, dist map[string]int, add func(string, []map[string]string)) error {
-	srv, err := hx.StartServer(realAddr, nil)
+// cliFile renders the configuration FILE of a real frpc (toml or legacy ini) and starts the client from it through
+// the real loader, so that every value on the visitor path (secret key, flags, server name and user, tcpMux) comes
+// out of the format under test.
+type cliFile struct {
+	format string
+	body   strings.Builder
+}
+
+func newCliFile(format, user string, srv *hx.Server) *cliFile {
+	c := &cliFile{format: format}
+	mux := *srv.Cfg.Transport.TCPMux
+	if format == "ini" {
+		fmt.Fprintf(&c.body, "[common]\nserver_addr = %s\nserver_port = %d\ntoken = %s\nuser = %s\nlogin_fail_exit = false\ntcp_mux = %v\ntls_enable = false\n\n",
+			srv.Addr, srv.Port, srv.Cfg.Auth.Token, user, mux)
+	} else {
+		fmt.Fprintf(&c.body, "serverAddr = %q\nserverPort = %d\nuser = %q\nloginFailExit = false\nauth.token = %q\ntransport.tcpMux = %v\ntransport.tls.enable = false\n\n",
+			srv.Addr, srv.Port, user, srv.Cfg.Auth.Token, mux)
+	}
+	return c
+}
+
+func (c *cliFile) proxy(name, sk, ip string, port int, ue, uc bool) {
+	if c.format == "ini" {
+		fmt.Fprintf(&c.body, "[%s]\ntype = stcp\nsk = %s\nlocal_ip = %s\nlocal_port = %d\nuse_encryption = %v\nuse_compression = %v\n\n", name, sk, ip, port, ue, uc)
+	} else {
+		fmt.Fprintf(&c.body, "[[proxies]]\nname = %q\ntype = \"stcp\"\nsecretKey = %q\nlocalIP = %q\nlocalPort = %d\ntransport.useEncryption = %v\ntransport.useCompression = %v\n\n", name, sk, ip, port, ue, uc)
+	}
+}
+
+func (c *cliFile) visitor(name, serverName, serverUser, sk, bindAddr string, bindPort int, ue, uc bool) {
+	if c.format == "ini" {
+		fmt.Fprintf(&c.body, "[%s]\ntype = stcp\nrole = visitor\nserver_name = %s\nserver_user = %s\nsk = %s\nbind_addr = %s\nbind_port = %d\nuse_encryption = %v\nuse_compression = %v\n\n",
+			name, serverName, serverUser, sk, bindAddr, bindPort, ue, uc)
+	} else {
+		fmt.Fprintf(&c.body, "[[visitors]]\nname = %q\ntype = \"stcp\"\nserverName = %q\nserverUser = %q\nsecretKey = %q\nbindAddr = %q\nbindPort = %d\ntransport.useEncryption = %v\ntransport.useCompression = %v\n\n",
+			name, serverName, serverUser, sk, bindAddr, bindPort, ue, uc)
+	}
+}
+
+type loadedClient struct {
+	svc    *client.Service
+	cancel context.CancelFunc
+}
+
+func (l *loadedClient) Close() { l.cancel(); l.svc.Close() }
+
+func (l *loadedClient) waitRunning(name string, d time.Duration) bool {
+	deadline := time.Now().Add(d)
+	for time.Now().Before(deadline) {
+		if st, ok := l.svc.StatusExporter().GetProxyStatus(name); ok && st.Phase == "running" {
+			return true
+		}
+		time.Sleep(10 * time.Millisecond)
+	}
+	return false
+}
+
+var c08WorkDir = os.TempDir()
+var cliFileNo int
+
+func (c *cliFile) start() (*loadedClient, error) {
+	cliFileNo++
+	ext := "toml"
+	if c.format == "ini" {
+		ext = "ini"
+	}
+	path := filepath.Join(c08WorkDir, fmt.Sprintf("c08_frpc_%d.%s", cliFileNo, ext))
+	if err := os.WriteFile(path, []byte(c.body.String()), 0o644); err != nil {
+		return nil, err
+	}
+	defer os.Remove(path)
+	cc, pcs, vcs, _, err := config.LoadClientConfig(path, c.format != "ini")
+	if err != nil {
+		return nil, fmt.Errorf("load %s: %v", path, err)
+	}
+	svc, err := client.NewService(client.ServiceOptions{Common: cc, ProxyCfgs: pcs, VisitorCfgs: vcs})
+	if err != nil {
+		return nil, err
+	}
+	ctx, cancel := context.WithCancel(context.Background())
+	go func() { _ = svc.Run(ctx) }()
+	return &loadedClient{svc, cancel}, nil
+}
+
+// realTransparency: owner frpc and visitor frpcs are real clients started from configuration files of the given
+// format; tcpMux as given (both values of the default-on switch are exercised over the two passes).
+func realTransparency(g *gen, dist map[string]int, add func(string, []map[string]string), format string, mux bool) error {
+	srv, err := hx.StartServer(realAddr, func(c *v1.ServerConfig) { m := mux; c.Transport.TCPMux = &m })
 	if err != nil {
 		return err
 	}
@@ -696,24 +787,20 @@ func realTransparency(g *gen, dist map[string]int, add func(string, []map[string
 		return err
 	}
 	defer echo.Close()
-	const sk = "e2e secret"
-	var proxies []v1.ProxyConfigurer
+	const sk = "e2e-secret"
+	of := newCliFile(format, "own", srv)
 	for p := 0; p < 4; p++ {
-		pc := &v1.STCPProxyConfig{}
-		pc.Name, pc.Type = fmt.Sprintf("e2e%d", p), "stcp"
-		pc.LocalIP, pc.LocalPort = realAddr, echo.Port()
-		pc.Secretkey = sk
-		pc.Transport.UseEncryption, pc.Transport.UseCompression = boolsOf(p)
-		proxies = append(proxies, pc)
+		ue, uc := boolsOf(p)
+		of.proxy(fmt.Sprintf("e2e%d", p), sk, realAddr, echo.Port(), ue, uc)
 	}
-	owner, err := srv.StartClient(proxies, nil, func(c *v1.ClientCommonConfig) { c.User = "own" })
+	owner, err := of.start()
 	if err != nil {
 		return err
 	}
 	defer owner.Close()
 	for p := 0; p < 4; p++ {
-		if !owner.WaitProxyRunning(fmt.Sprintf("own.e2e%d", p), 5*time.Second) {
-			return fmt.Errorf("real owner proxy e2e%d not running", p)
+		if !owner.waitRunning(fmt.Sprintf("own.e2e%d", p), 5*time.Second) {
+			return fmt.Errorf("real owner proxy e2e%d (%s configuration) not running", p, format)
 		}
 	}
 	type vis struct {
@@ -722,38 +809,32 @@ func realTransparency(g *gen, dist map[string]int, add func(string, []map[string
 		wrongKey  bool
 		otherUser bool
 	}
-	var visitors []v1.VisitorConfigurer
 	var vl []vis
-	mk := func(name string, v, p int, key string) int {
-		vc := &v1.STCPVisitorConfig{}
-		vc.Name, vc.Type = name, "stcp"
-		vc.ServerName = fmt.Sprintf("e2e%d", p)
-		vc.ServerUser = "own"
-		vc.SecretKey = key
-		vc.BindAddr = realAddr
-		vc.BindPort = hx.FreePort(realAddr)
-		vc.Transport.UseEncryption, vc.Transport.UseCompression = boolsOf(v)
-		visitors = append(visitors, vc)
-		return vc.BindPort
+	vf := newCliFile(format, "own", srv)
+	mk := func(f *cliFile, name string, v, p int, key string) int {
+		port := hx.FreePort(realAddr)
+		ue, uc := boolsOf(v)
+		f.visitor(name, fmt.Sprintf("e2e%d", p), "own", key, realAddr, port, ue, uc)
+		return port
 	}
 	for v := 0; v < 4; v++ {
 		for p := 0; p < 4; p++ {
-			vl = append(vl, vis{port: mk(fmt.Sprintf("v%d%d", v, p), v, p, sk), v: v, p: p})
+			vl = append(vl, vis{port: mk(vf, fmt.Sprintf("v%d%d", v, p), v, p, sk), v: v, p: p})
 		}
 	}
 	wv, wp := g.Intn(4), g.Intn(4)
-	vl = append(vl, vis{port: mk("vwrong", wv, wp, sk+"x"), v: wv, p: wp, wrongKey: true})
+	vl = append(vl, vis{port: mk(vf, "vwrong", wv, wp, sk+"x"), v: wv, p: wp, wrongKey: true})
 	// same user as the owner: the default allowUsers admits it
-	vcli, err := srv.StartClient(nil, visitors, func(c *v1.ClientCommonConfig) { c.User = "own" })
+	vcli, err := vf.start()
 	if err != nil {
 		return err
 	}
 	defer vcli.Close()
 	// a visitor frpc of another user holding the right key: refused by the default allowUsers
 	ov, op := g.Intn(4), g.Intn(4)
-	visitors = nil
-	otherPort := mk("vother", ov, op, sk)
-	ocli, err := srv.StartClient(nil, visitors, func(c *v1.ClientCommonConfig) { c.User = "mallory" })
+	mf := newCliFile(format, "mallory", srv)
+	otherPort := mk(mf, "vother", ov, op, sk)
+	ocli, err := mf.start()
 	if err != nil {
 		return err
 	}
@@ -810,7 +891,7 @@ func realTransparency(g *gen, dist map[string]int, add func(string, []map[string
 				"what": "a real frpc visitor with a wrong key or a user outside the default allowUsers reached the owner's backend",
 				"case": cs})
 		}
-		dist[fmt.Sprintf("e2e:kind=%d:ok=%v:backend=%d", kind, ok, nconn)]++
+		dist[fmt.Sprintf("e2e:%s:mux=%v:kind=%d:ok=%v:backend=%d", format, mux, kind, ok, nconn)]++
 		add(cs, fails)
 	}
 	return nil
@@ -825,8 +906,18 @@ func systemCases(cfg *hx.RunCfg, g *gen, n int, dist map[string]int, add func(st
 		}
 		add(c, f)
 	}
-	if err := realTransparency(g, dist, add); err != nil {
-		return err
+	{
+		c, f, err := pluginCase(g, dist)
+		if err != nil {
+			return fmt.Errorf("login plugin case: %v", err)
+		}
+		add(c, f)
+	}
+	if err := realTransparency(g, dist, add, "toml", false); err != nil {
+		return fmt.Errorf("real frpc (toml, tcpMux off): %v", err)
+	}
+	if err := realTransparency(g, dist, add, "ini", true); err != nil {
+		return fmt.Errorf("real frpc (legacy ini, tcpMux on): %v", err)
 	}
 	if err := cfgCases(cfg, g, dist, add); err != nil {
 		return fmt.Errorf("config cases: %v", err)
